@@ -733,7 +733,59 @@ def c05_17(ctx):
     return out
 
 
+def c05_18(ctx):
+    """OWNERSHIP (shared with C06.13): verification works on its own copy of the witness -- popping the annex / control block while a script is
+    evaluated must not change the witness the BIP341 digest is computed from"""
+    from rules.C06 import c06_13
+    return c06_13(ctx)
+
+
+def c05_19(ctx):
+    """the digest algorithm is chosen by the *spent output's type* for every hash type and input position: Tx.sig_hash evaluated over
+    {p2pkh, p2sh, p2wpkh, p2wsh, p2tr} x hash types {1, 2, 3, 0x81, 0x82, 0x83} x input index {below, at, beyond} the number of outputs; the three
+    digest functions are stand-ins that report being called.  (The legacy "SIGHASH_SINGLE without a matching output" constant belongs to the
+    legacy algorithm only; BIP143 hashes zero hashOutputs instead.)"""
+    from sa.cells import Evaluator, Obj, Raised, Undecided
+    spec = "tx:Tx.sig_hash"
+    mod, fn = rl.get(ctx, spec)
+    h20, h32 = bytes([7]) * 20, bytes([9]) * 32
+    kinds = {"p2pkh": ("P2PKHScriptPubKey", [0x76, 0xA9, h20, 0x88, 0xAC], "legacy"), "p2sh": ("P2SHScriptPubKey", [0xA9, h20, 0x87], "legacy"),
+             "p2wpkh": ("P2WPKHScriptPubKey", [0, h20], "bip143"), "p2wsh": ("P2WSHScriptPubKey", [0, h32], "bip143"), "p2tr": ("P2TRScriptPubKey", [0x51, h32], "bip341")}
+    hooks_base = {("Tx", "sig_hash_bip341"): lambda o, *a, **k: ("bip341",), ("Tx", "sig_hash_bip143"): lambda o, *a, **k: ("bip143",),
+                  ("Tx", "sig_hash_legacy"): lambda o, *a, **k: ("legacy",)}
+    cells = 0
+    try:
+        for kind, (cls, cmds, want) in kinds.items():
+            spk = Obj("script", cls, {"commands": list(cmds)})
+            for hash_type in (1, 2, 3, 0x81, 0x82, 0x83):
+                for idx in (0, 1, 2):
+                    cells += 1
+                    wit = Obj("witness", "Witness", {"items": [b"\x30" * 64] if kind == "p2tr" else ([b"\x30" * 71, b"\x02" * 33] if want == "bip143" else [])})
+                    red = Obj("script", "RedeemScript", {"commands": [0x51, b"\x02" * 33, 0x51, 0xAE]})
+                    ins = [Obj("tx", "TxIn", {"witness": wit, "script_sig": Obj("script", "Script", {"commands": [b"\x30" * 71, b"|".join([b"r"])] if kind == "p2sh" else []})})
+                           for _ in range(3)]
+                    me = Obj("tx", "Tx", {"tx_ins": ins, "tx_outs": [Obj("tx", "TxOut", {"amount": 1})], "network": "testnet", "segwit": True, "version": 2, "locktime": 0})
+                    hooks = dict(hooks_base)
+                    hooks[("TxIn", "script_pubkey")] = lambda o, *a, **k: spk
+                    hooks[("RedeemScript", "convert")] = lambda cls_, raw, *a, **k: red
+                    hooks[("WitnessScript", "convert")] = lambda cls_, raw, *a, **k: Obj("script", "WitnessScript", {"commands": [0x51]})
+                    try:
+                        r = Evaluator(ctx.repo, method_hooks=hooks).call(spec, [idx, hash_type], self_obj=me)
+                    except Raised as x:
+                        r = "raises %s" % x.name
+                    if r != (want,):
+                        return [ctx.bad(spec, "for a %s input at index %d of a transaction with 1 output and hash type %#04x, sig_hash gives %s instead of the %s digest: the "
+                                              "algorithm is not chosen by the type of the spent output" % (kind, idx, hash_type, ("%#x" % r) if isinstance(r, int) else r, want.upper()),
+                                        fn, mod, key="digest-by-output-type")]
+    except Undecided as u:
+        return [ctx.err(spec, "digest dispatch not evaluable: %s" % u, fn, mod)]
+    ctx.count("cells", cells)
+    return [ctx.ok(spec, "legacy / BIP143 / BIP341 chosen by the spent output's type in all %d (type, hash type, index) cells" % cells, fn, mod, key="digest-by-output-type")]
+
+
 OBLIGATIONS = [
+    ("C05.18", "OWNERSHIP (shared C06.13)", c05_18),
+    ("C05.19", "CELLS digest dispatch", c05_19),
     ("C05.16", "PER-ITERATION digest (shared C06.16)", c05_16),
     ("C05.17", "DATAFLOW mask", c05_17),
     ("C05.15", "SHARED", c05_15),
